@@ -329,6 +329,7 @@ def report(ctx, jobs, results, hooked):
 
 def run(ctx):
     hooked = hook_present()
+    ctx.log("tree %s: hook H5 %s" % (REPO, "present" if hooked else "absent (outcome contract only)"))
     ctx.rule = ("UCI sessions = 2..4 fragments drawn from {go infinite/stop, go depth N, go movetime, go ponder/ponderhit, "
                 "go ponder/stop, back-to-back go, go during go, setoption Threads between searches} + quit (30% during a search), "
                 "Threads 1..8, 8 positions (incl. mate-in-1 / single-move positions), one H5 schedule-perturbation seed per session; "
@@ -368,7 +369,7 @@ def run(ctx):
             jobs, results, _ = campaign(ctx, exe, drv, hooked, ent.get("repeat", 10), fixed=ent)
             report(ctx, jobs, results, hooked)
     # (4) sessions
-    nruns = ctx.scale(220, 6000)
+    nruns = int(os.environ.get("VERIF_C10_RUNS", 0)) or ctx.scale(240, 6000)   # env override: development aid
     jobs, results, wall = campaign(ctx, exe, drv, hooked, nruns)
     ctx.notes["campaign_wall_s"] = round(wall, 1)
     report(ctx, jobs, results, hooked)
